@@ -83,7 +83,7 @@ def run(ctx):
     solve = cls.methods.get("solve")
     if solve is None:
         raise AnalysisError("ORToolsSolver.solve vanished")
-    eng = ctx.engine(relevant=_rel, max_depth=5)
+    eng = ctx.engine(relevant=_rel, max_depth=5, unroll=1)
     paths = eng.paths(solve, cls)
     chk.analysed["solve_paths"] = len(paths)
 
